@@ -6,6 +6,7 @@ the ordering maps each edge kind to the documented relationship; a by-reference 
 needs `&mut`; a binding handed out as `&mut` is declared `mut`.
 Whether rustc accepts the emitted crate is not decided.
 """
+import re
 from ..facts import callee, op_place, strip_generics
 from ..flow import Defs, backward_slice, slice_calls, forward_derived, rv_operands
 from ..quote import chains, token_of, is_quote_call
@@ -557,7 +558,7 @@ def r14_alias_never_replaces_a_real_binding(ctx):
     for bb, t in b.calls():
         c = callee(t) or ''
         m = c.split('::')[-1]
-        if m not in ('insert', 'entry') or not t.get('aty') or 'HashMap<rustdoc_ir::type_::CanonicalType' not in t['aty'][0]:
+        if m not in ('insert', 'entry') or not t.get('aty') or not re.search(r'HashMap<rustdoc_ir::[a-z_:]*CanonicalType', t['aty'][0]):
             continue
         # the key is `<a type>.canonicalize()`: it is the alias iff that type is built right there as `Type::Reference(TypeReference { is_mutable: false, .. })`
         # (followed through single definitions only: the dependency's own type is a variable with several)
@@ -630,7 +631,38 @@ def r16_every_bound_value_can_be_borrowed_mutably(ctx):
     ctx.floor('C01.R16', '`let` templates in _codegen_callable_closure_body', n, 2)
 
 
+def r17_impl_matching_looks_at_generic_arguments(ctx):
+    ctx.rule('C01.R17', 'P8 field coverage in the trait solver: `traits::implements_trait` answers "is `T: Copy` / `T: Clone`" by looking for an impl whose self type '
+             '`is_equivalent` to `T`. For a path type that comparison has to take the generic arguments into account (`impl<T: Copy> Copy for Option<T>` does '
+             'not make `Option<String>` Copy): the function reads `PathType::generic_arguments`, not the base path only. If it does not, a non-Copy value '
+             'consumed by value twice is taken to be Copy - no clone, no diagnostic - and the generated code moves it twice (E0382).')
+    item = PX + 'traits::is_equivalent'
+    bodies = [b for b in ctx.fb.bodies_of_item('pavexc', item) if not b.is_promoted]
+    if not ctx.need('C01.R17', 'traits::is_equivalent', bodies):
+        return
+    base = args = False
+    for b in bodies:
+        for bb, blk in enumerate(b.blocks):
+            nodes = [st['rv'] for st in blk['st'] if 'rv' in st]
+            places = []
+            for rv in nodes:
+                ops, pls = rv_operands(rv)
+                places += pls + [op_place(o) for o in ops if op_place(o) is not None]
+            t = blk.get('term')
+            if t and t.get('k') in ('call', 'tailcall'):
+                places += [op_place(a) for a in t['args'] if op_place(a) is not None]
+            for q in places:
+                pp = q.get('p', [])
+                base = base or 'f:base_type' in pp
+                args = args or 'f:generic_arguments' in pp
+    ctx.ob('C01.R17', 'positive-control|base_type-is-read', base, bodies[0].loc(), 'is_equivalent reads PathType.base_type: %s' % base, nontrivial=False)
+    ctx.ob('C01.R17', 'impl-matching-reads-generic-arguments|traits::is_equivalent', args, bodies[0].loc(),
+           'is_equivalent %s PathType.generic_arguments' % ('reads' if args else 'never reads'))
+
+
 def check(ctx):
+    r17_impl_matching_looks_at_generic_arguments(ctx)
+    r16_every_bound_value_can_be_borrowed_mutably(ctx)
     from .persist_common import writer_replaces_the_whole_file
     writer_replaces_the_whole_file(ctx, 'C01.R15', 'shared with C10.R10: ')
     r1_typestate(ctx)
@@ -648,3 +680,4 @@ def check(ctx):
 
 
 CLAUSE += ' Also: every write of a generated file goes to a handle that replaces the file (no tail of a previous, longer generation survives).'
+CLAUSE += ' Also: every let template of the call-graph code generator can declare its variable mut; impl matching in the trait solver reads the generic arguments (known finding).'
